@@ -233,6 +233,18 @@ fn targeted() -> Vec<(&'static str, Value)> {
     ("explicit_idler:energy_conserving", base(json!(90), ppa.clone(), idl(1550.), 0., false)),
     ("explicit_idler:other_wavelength:pp", base(json!(90), ppa.clone(), idl(1500.), 0., false)),
     ("explicit_idler:other_wavelength:no_pp", base(json!(40), Value::Null, idl(1600.), 1.5, false)),
+    ("nondegenerate:no_pp", json!({
+      "crystal": {"kind": "BBO_1", "pm_type": "e->eo", "phi_deg": 0, "theta_deg": 35, "length_um": 1500, "temperature_c": 25},
+      "pump": {"wavelength_nm": 405, "waist_um": 120, "bandwidth_nm": 2.0, "average_power_mw": 5},
+      "signal": {"wavelength_nm": 760, "phi_deg": 0, "theta_deg": 1.0, "waist_um": 90, "waist_position_um": "auto"},
+      "idler": "auto", "deff_pm_per_volt": 2.0
+    })),
+    ("nondegenerate:pp_auto", json!({
+      "crystal": {"kind": "KTP", "pm_type": "e->eo", "phi_deg": 0, "theta_deg": 90, "length_um": 5000, "temperature_c": 40},
+      "pump": {"wavelength_nm": 532, "waist_um": 100, "bandwidth_nm": 1.0, "average_power_mw": 10},
+      "signal": {"wavelength_nm": 900, "phi_deg": 0, "theta_deg": 0.5, "waist_um": 70},
+      "periodic_poling": {"poling_period_um": "auto"}, "deff_pm_per_volt": 5.0
+    })),
     ("noncollinear:pp_explicit", base(json!(90), json!({"poling_period_um": 46.2, "apodization": {"kind": "Gaussian", "parameter": {"fwhm_um": 1500}}}), json!("auto"), 1., false)),
   ]
 }
